@@ -1294,3 +1294,258 @@ Lemma unknown_host_cache_poisons :
   serve_seq_cached (tbuild sites) default_fallbacks [] [q2; q1; q2] = [Site 1 (bs "/app"%string); NotFound 404; NotFound 404] /\
   serve_seq (process [(sites, [])]) [r q1; r q2] = [Some (NotFound 404); Some (Site 1 (bs "/app"%string))].
 Proof. vm_compute. repeat split; reflexivity. Qed.
+
+(* ===================== the outcome is a function of the declared (host, path) -> site map ===== *)
+Lemma host_declared_owner sites h :
+  host_declared sites h = true <-> exists p, owner sites h p <> None.
+Proof.
+  split.
+  - intros H. unfold host_declared in H. apply existsb_exists in H as [[key s] [Hin Hk]].
+    cbn [fst] in Hk. apply beq_eq in Hk. subst h. exists (addr_path key).
+    eapply owner_declared; eassumption.
+  - intros [p Hp]. destruct (owner sites h p) as [s|] eqn:E; [|congruence].
+    apply owner_some in E as [key [Hin [Hh _]]]. unfold host_declared. apply existsb_exists.
+    exists (key, s). split; [assumption|]. cbn [fst]. rewrite Hh. apply beq_refl.
+Qed.
+
+Lemma host_declared_ext sites sites' :
+  (forall h p, owner sites h p = owner sites' h p) ->
+  forall h, host_declared sites h = host_declared sites' h.
+Proof.
+  intros Hown h.
+  destruct (host_declared sites h) eqn:E1, (host_declared sites' h) eqn:E2; try reflexivity.
+  - apply host_declared_owner in E1 as [p Hp]. rewrite Hown in Hp.
+    assert (host_declared sites' h = true) by (apply host_declared_owner; eauto). congruence.
+  - apply host_declared_owner in E2 as [p Hp]. rewrite <- Hown in Hp.
+    assert (host_declared sites h = true) by (apply host_declared_owner; eauto). congruence.
+Qed.
+
+Theorem spec_function_of_owner sites sites' :
+  (forall h p, owner sites h p = owner sites' h p) ->
+  forall xf hh up proto, spec sites xf hh up proto = spec sites' xf hh up proto.
+Proof.
+  intros Hown xf hh up proto. unfold spec, governing_pattern.
+  rewrite (first_some_ext _ (fun h => find (host_declared sites') (patterns h)))
+    by (intros h; apply find_ext'; apply host_declared_ext; assumption).
+  destruct (first_some _ _) as [pat|]; [|reflexivity].
+  rewrite (first_some_ext _ (fun q => option_map (fun s => (s, q)) (owner sites' pat q)))
+    by (intros q; rewrite Hown; reflexivity).
+  reflexivity.
+Qed.
+
+Theorem route_function_of_owner sites sites' :
+  (forall h p, owner sites h p = owner sites' h p) ->
+  forall xf hh up proto,
+    tserve (tbuild sites) xf hh up proto = tserve (tbuild sites') xf hh up proto.
+Proof. intros H xf hh up proto. rewrite !route_spec. apply spec_function_of_owner. exact H. Qed.
+
+(* with unique normalised addresses the map is the SET of declarations *)
+Lemma nodup_map_inj {A B} (f : A -> B) : forall l x y,
+  NoDup (map f l) -> In x l -> In y l -> f x = f y -> x = y.
+Proof.
+  induction l as [|a l IH]; intros x y Hnd Hx Hy Hf; [destruct Hx|].
+  cbn [map] in Hnd. inversion Hnd as [|? ? Hni Hnd']; subst.
+  destruct Hx as [Hx|Hx], Hy as [Hy|Hy].
+  - congruence.
+  - subst a. exfalso. apply Hni. rewrite Hf. apply in_map. assumption.
+  - subst a. exfalso. apply Hni. rewrite <- Hf. apply in_map. assumption.
+  - eapply IH; eassumption.
+Qed.
+
+Lemma owner_of_set sites h p s :
+  NoDup (map addr_key sites) ->
+  (owner sites h p = Some s <-> exists a, In (a, s) sites /\ addr_host a = h /\ addr_path a = p).
+Proof.
+  intros Hnd. split; [apply owner_some|].
+  intros [a [Hin [Hh Hp]]]. pose proof (owner_declared _ _ _ Hin) as Hd. rewrite Hh, Hp in Hd.
+  destruct (owner sites h p) as [s'|] eqn:E; [|congruence].
+  apply owner_some in E as [a' [Hin' [Hh' Hp']]].
+  assert (Heq : (a', s') = (a, s)).
+  { eapply nodup_map_inj; try eassumption. unfold addr_key. cbn [fst]. congruence. }
+  congruence.
+Qed.
+
+Theorem route_function_of_declared_set sites sites' :
+  NoDup (map addr_key sites) -> NoDup (map addr_key sites') ->
+  (forall a s, In (a, s) sites <-> In (a, s) sites') ->
+  forall xf hh up proto,
+    tserve (tbuild sites) xf hh up proto = tserve (tbuild sites') xf hh up proto.
+Proof.
+  intros Hnd Hnd' Hset. apply route_function_of_owner. intros h p.
+  destruct (owner sites h p) as [s|] eqn:E.
+  - symmetry. apply owner_of_set; [assumption|]. apply owner_of_set in E; [|assumption].
+    destruct E as [a [Hin H]]. exists a. split; [apply Hset; assumption|assumption].
+  - destruct (owner sites' h p) as [s|] eqn:E'; [|reflexivity].
+    apply owner_of_set in E'; [|assumption]. destruct E' as [a [Hin H]].
+    assert (owner sites h p = Some s) by (apply owner_of_set; [assumption|]; exists a; split; [apply Hset; assumption|assumption]).
+    congruence.
+Qed.
+
+(* ===================== the request-target: routing sees the decoded path only ================= *)
+Lemma unescape_spells : forall raw p, unescape raw = Some p <-> spells raw p.
+Proof.
+  intros raw p. split.
+  - revert p. remember (length raw) as n eqn:Hn. revert raw Hn.
+    induction n as [n IH] using lt_wf_ind. intros raw Hn p H.
+    destruct raw as [|c r]; cbn [unescape] in H.
+    + injection H as <-. constructor.
+    + destruct (c =? PCT) eqn:Ec.
+      * apply N.eqb_eq in Ec. subst c.
+        destruct r as [|h [|l r']]; try discriminate.
+        destruct (hexval h) as [a|] eqn:Ea; [|discriminate].
+        destruct (hexval l) as [b|] eqn:Eb; [|discriminate].
+        destruct (unescape r') as [p'|] eqn:Er; [|discriminate].
+        cbn [option_map] in H. injection H as <-.
+        apply spells_esc; try assumption.
+        eapply (IH (length r')); [|reflexivity|assumption]. subst n. cbn [length]. lia.
+      * apply N.eqb_neq in Ec.
+        destruct (unescape r) as [p'|] eqn:Er; [|discriminate].
+        cbn [option_map] in H. injection H as <-.
+        apply spells_lit; [assumption|].
+        eapply (IH (length r)); [|reflexivity|assumption]. subst n. cbn [length]. lia.
+  - intros H. induction H as [|c r p Hc _ IH|h l a b r p Ha Hb _ IH].
+    + reflexivity.
+    + cbn [unescape]. apply N.eqb_neq in Hc. rewrite Hc, IH. reflexivity.
+    + cbn [unescape]. rewrite N.eqb_refl, Ha, Hb, IH. reflexivity.
+Qed.
+
+Theorem target_route_decoded sites xf hh raw p proto :
+  target_ok raw = true -> spells (upto_q raw) p ->
+  tserve_target (tbuild sites) xf hh raw proto = Some (spec sites xf hh p proto).
+Proof.
+  intros Hok Hsp. unfold tserve_target, target_path. rewrite Hok.
+  apply unescape_spells in Hsp. rewrite Hsp. cbn [option_map]. rewrite route_spec. reflexivity.
+Qed.
+
+Theorem target_route_spelling_irrelevant sites xf hh raw raw' p proto :
+  target_ok raw = true -> target_ok raw' = true ->
+  spells (upto_q raw) p -> spells (upto_q raw') p ->
+  tserve_target (tbuild sites) xf hh raw proto = tserve_target (tbuild sites) xf hh raw' proto.
+Proof.
+  intros H1 H2 H3 H4.
+  rewrite (target_route_decoded _ _ _ _ p _ H1 H3), (target_route_decoded _ _ _ _ p _ H2 H4).
+  reflexivity.
+Qed.
+
+(* a spelling never decodes to two different paths, and a rejected target has none *)
+Theorem spells_functional raw p p' : spells raw p -> spells raw p' -> p = p'.
+Proof. intros H H'. apply unescape_spells in H, H'. congruence. Qed.
+
+Theorem target_rejected_iff raw :
+  target_path raw = None <-> (target_ok raw = false \/ forall p, ~ spells (upto_q raw) p).
+Proof.
+  unfold target_path. destruct (target_ok raw); split.
+  - intros H. right. intros p Hp. apply unescape_spells in Hp. congruence.
+  - intros [H|H]; [discriminate|]. destruct (unescape (upto_q raw)) as [p|] eqn:E; [|reflexivity].
+    exfalso. apply (H p). apply unescape_spells. assumption.
+  - auto.
+  - reflexivity.
+Qed.
+
+(* hex digits: either letter case has the same value *)
+Lemma hexval_case h : (65 <=? h) && (h <=? 70) = true -> hexval (h + 32) = hexval h.
+Proof.
+  intros H. apply andb_true_iff in H as [H1 H2]. apply N.leb_le in H1, H2.
+  assert (Hc : h = 65 \/ h = 66 \/ h = 67 \/ h = 68 \/ h = 69 \/ h = 70) by lia.
+  destruct Hc as [->|[->|[->|[->|[->| ->]]]]]; reflexivity.
+Qed.
+
+(* the literal spelling: a path without "%" spells itself, and every path has the all-escaped
+   spelling, so every decoded path is reachable by a target *)
+Lemma spells_literal : forall p, forallb (fun c => negb (c =? PCT)) p = true -> spells p p.
+Proof.
+  induction p as [|c p IH]; intros H; [constructor|].
+  cbn [forallb] in H. apply andb_true_iff in H as [Hc Hr].
+  apply spells_lit; [|apply IH; assumption].
+  apply negb_true_iff in Hc. apply N.eqb_neq. assumption.
+Qed.
+
+(* ===================== host folding as Go does it (non-ASCII, invalid UTF-8) ================== *)
+Lemma go_lower_ascii s : forallb (fun c => c <? 128) s = true -> go_lower s = to_lower s.
+Proof. intros H. unfold go_lower. rewrite H. reflexivity. Qed.
+
+Theorem route_u_fold_only sites xf hh hh' up proto :
+  lower_key (strip_port hh ++ up) = lower_key (strip_port hh' ++ up) ->
+  tserve_u sites xf hh up proto = tserve_u sites xf hh' up proto.
+Proof. intros H. unfold tserve_u. rewrite H. reflexivity. Qed.
+
+Theorem route_u_declared_fold_only sites sites' xf hh up proto :
+  map (fun s => (lower_key (fst s), snd s)) sites = map (fun s => (lower_key (fst s), snd s)) sites' ->
+  tserve_u sites xf hh up proto = tserve_u sites' xf hh up proto.
+Proof. intros H. unfold tserve_u. rewrite H. reflexivity. Qed.
+
+(* "the exact name" is the name after Go's folding: two host names that differ in a byte which is
+   no letter at all are one name when both bytes are ill-formed UTF-8 *)
+Lemma invalid_utf8_hosts_collide :
+  exists sites hh up,
+    sites = [([97; 255; 46; 99; 111; 109], 1)] /\ hh = [97; 254; 46; 99; 111; 109] /\
+    to_lower hh <> to_lower [97; 255; 46; 99; 111; 109] /\
+    tserve_u sites [] hh up 1 = Site 1 [SLASH].
+Proof.
+  exists [([97; 255; 46; 99; 111; 109], 1)], [97; 254; 46; 99; 111; 109], [SLASH].
+  repeat split; try reflexivity. vm_compute. discriminate.
+Qed.
+
+(* on ASCII host text the explicit Go folding changes nothing: tserve_u is tserve *)
+Lemma lower_byte_slash c : (lower_byte c =? SLASH) = (c =? SLASH).
+Proof. apply lower_byte_fix. reflexivity. Qed.
+
+Lemma lower_byte_idem c : lower_byte (lower_byte c) = lower_byte c.
+Proof.
+  unfold lower_byte. destruct ((65 <=? c) && (c <=? 90)) eqn:E; [|rewrite E; reflexivity].
+  apply andb_true_iff in E as [E1 E2]. apply N.leb_le in E1, E2.
+  destruct ((65 <=? c + 32) && (c + 32 <=? 90)) eqn:E'; [|reflexivity].
+  apply andb_true_iff in E' as [_ E3]. apply N.leb_le in E3. lia.
+Qed.
+
+Lemma to_lower_idem s : to_lower (to_lower s) = to_lower s.
+Proof. unfold to_lower. rewrite map_map. apply map_ext. intros c. apply lower_byte_idem. Qed.
+
+Lemma upto_slash_lowered : forall k,
+  upto_slash (to_lower (upto_slash k) ++ skipn (length (upto_slash k)) k) = to_lower (upto_slash k).
+Proof.
+  induction k as [|c r IH]; [reflexivity|]. cbn [upto_slash].
+  destruct (c =? SLASH) eqn:E.
+  - cbn [to_lower map length skipn app upto_slash]. rewrite E. reflexivity.
+  - unfold to_lower in *. cbn [map length skipn app upto_slash]. rewrite lower_byte_slash, E, IH. reflexivity.
+Qed.
+
+Lemma after_slash_lowered : forall k,
+  after_slash (to_lower (upto_slash k) ++ skipn (length (upto_slash k)) k) = after_slash k.
+Proof.
+  induction k as [|c r IH]; [reflexivity|]. cbn [upto_slash].
+  destruct (c =? SLASH) eqn:E.
+  - cbn [to_lower map length skipn app after_slash]. rewrite E. reflexivity.
+  - unfold to_lower in *. cbn [map length skipn app after_slash]. rewrite lower_byte_slash, E, IH. reflexivity.
+Qed.
+
+Definition ascii_host (k : bytes) : bool := forallb (fun c => c <? 128) (upto_slash k).
+
+Lemma split_host_path_lower_key k :
+  ascii_host k = true -> split_host_path (lower_key k) = split_host_path k.
+Proof.
+  intros H. rewrite !split_host_path_addr. unfold lower_key. rewrite go_lower_ascii by exact H.
+  unfold addr_host, addr_path. rewrite upto_slash_lowered, after_slash_lowered.
+  unfold spec_norm_host. rewrite to_lower_idem. reflexivity.
+Qed.
+
+Lemma tinsert_lower_key t k s : ascii_host k = true -> tinsert t (lower_key k) s = tinsert t k s.
+Proof. intros H. unfold tinsert. rewrite split_host_path_lower_key by exact H. reflexivity. Qed.
+
+Lemma tbuild_lower_keys : forall sites t,
+  forallb (fun s => ascii_host (fst s)) sites = true ->
+  fold_left (fun t s => tinsert t (fst s) (snd s)) (map (fun s => (lower_key (fst s), snd s)) sites) t =
+  fold_left (fun t s => tinsert t (fst s) (snd s)) sites t.
+Proof.
+  induction sites as [|x sites IH]; intros t H; [reflexivity|].
+  cbn [forallb] in H. apply andb_true_iff in H as [Hx Hr].
+  cbn [map fold_left fst snd]. rewrite tinsert_lower_key by exact Hx. apply IH. exact Hr.
+Qed.
+
+Theorem route_u_ascii sites xf hh up proto :
+  forallb (fun s => ascii_host (fst s)) sites = true -> ascii_host (strip_port hh ++ up) = true ->
+  tserve_u sites xf hh up proto = tserve (tbuild sites) xf hh up proto.
+Proof.
+  intros Hs Hh. unfold tserve_u, tserve, tbuild. rewrite tbuild_lower_keys by exact Hs.
+  unfold ttrie_match. rewrite split_host_path_lower_key by exact Hh. reflexivity.
+Qed.
